@@ -83,6 +83,28 @@ check("C11", "exploration",
       "Trusted: NumPy's indexing applied to arange(size) as the position oracle.",
       "property-based testing (Hypothesis) with a reference model (dense scatter by bincount)", "DESIGN.md C11")
 
+check("C10", "exploration",
+      "Model-based histories over one (vjp, jvp) pair of a generated program (array compositions with pass-through rules, fan-out, sparse "
+      "and dense uses, captured constants; container programs built with autograd's tuple/list/dict): after every step all user-visible "
+      "buffers are byte-identical to their snapshots (and read-only, so writes raise), every vjp(g) equals bitwise a freshly built VJP "
+      "called once, and scaling is linear.",
+      "Trusted: SHA-256 snapshots; deterministic backward pass for an identical graph. Histories are drawn step sequences (<= 30 steps) in the "
+      "same choice-sequence framework as every other check, so they shrink and replay as one value.",
+      "stateful / model-based property testing (Hypothesis-drawn operation sequences with invariants after every step)", "DESIGN.md C10")
+check("C12", "exploration",
+      "Generated nested tuples/lists/dicts and access programs (index, slice, + on either side, iteration, unpacking, dict methods, "
+      "re-packing with constants, inner functions): gradient leaves against routing computed by running the same program on plain "
+      "containers of ids; structure equality; primal equality; forward mode; container-valued outputs; flatten round trips, linearity and "
+      "commutation with grad.",
+      "Trusted: plain Python container semantics as the routing oracle.",
+      "property-based testing (Hypothesis) with a reference model (plain-container routing) and round-trip laws", "DESIGN.md C12")
+check("C13", "exploration",
+      "Values of every registered type/dtype/shape/nesting (incl. 0-d, size 0, reduced and extended precision, dicts with different key "
+      "order): vector-space laws (exact where the law is exact), inner-product laws, basis orthonormality/completeness/size, closure, "
+      "space equality iff structure/shape/dtype agree, freshness of mut_add(None, x).",
+      "Trusted: dyadic-rational test values make exact laws exactly checkable; tolerances 64*eps*(size+1) elsewhere.",
+      "property-based testing (Hypothesis) with algebraic-law oracles", "DESIGN.md C13")
+
 NOT_YET = {}
 
 
